@@ -493,10 +493,53 @@ def run(ctx):
         f = prog.fn(nm, 'qmail-inject.c')
         lists[nm] = sorted(c.args[1].src() for c in f.calls('rwappend'))
     r4.check(lists == {'rwtocc': ['&hrlist', '&tocclist'], 'rwhr': ['&hrlist'], 'rwhrr': ['&hrrlist']}, 'rewriters-feed-the-documented-lists', 'qmail-inject.c', '%s' % lists)
+    # the rewriting callbacks hand the address back in the order they received it (token822_addrlist goes on to print it), and what they
+    # store in the recipient lists is the address in reading order: token reversals come in pairs around token822_unquote()
+    class RW(QHooks):
+        def __init__(self):
+            self.ends = []
+            self.unq = []
+
+        def tracked_global(self, path):
+            return True
+
+        def prim_token822_reverse(self, E, x, args):
+            E.set('$rev', fs(1 - g1(E, '$rev', 0)))
+            return [Outcome(ret=TOP)]
+
+        def prim_token822_unquote(self, E, x, args):
+            self.unq.append(g1(E, '$rev', 0))
+            return [Outcome(ret=fs(1))]
+
+        def _n(self, E, x, args):
+            return [Outcome(ret=TOP)]
+
+        prim_rwgeneric = _n
+
+        def prim_saa_readyplus(self, E, x, args):
+            return [Outcome(ret=fs(1))]
+
+        def on_return(self, E, fn, val):
+            if fn.name == self.entry:
+                self.ends.append(g1(E, '$rev', 0))
+    badrw = []
+    for cb in ('rwhr', 'rwhrr', 'rwtocc'):
+        f_ = prog.fn(cb, 'qmail-inject.c')
+        hrw = RW()
+        hrw.entry = cb
+        e_ = Engine(db, prog, hrw, max_states=20000)
+        e_.run(f_, {'%s::%s' % (e_.frame_id(f_), f_.params[0]): fs(('&', 'ADDR')), '$rev': fs(0)})
+        rep.count_states(e_.states, e_.transitions)
+        if not hrw.ends or not hrw.unq:
+            raise AnalysisBroken('qmail-inject %s: no return / no token822_unquote() reached' % cb)
+        if any(r_ != 0 for r_ in hrw.ends) or any(u_ != 1 for u_ in hrw.unq):
+            badrw.append((cb, 'returns with the address %s' % ('reversed' if any(hrw.ends) else 'in order'), 'stores it %s' % ('in reading order' if all(u_ == 1 for u_ in hrw.unq) else 'reversed')))
+    r4.check(not badrw, 'rewriters-hand-the-address-back-as-they-got-it', 'qmail-inject.c', 'callback behaviour: %s; an address left reversed is printed back to front in the rewritten header field (al@one.example becomes example.one@al)' % badrw)
     en = prog.fn('exitnicely', 'qmail-inject.c')
 
     class EN(QHooks):
         LISTS = {'G:reciplist': 'RCP', 'G:hrlist': 'HR', 'G:hrrlist': 'HRR', 'G:tocclist': 'TOCC', 'G:savedh': 'SAV'}
+        LENS = {'RCP': 2, 'HR': 1, 'HRR': 3, 'TOCC': 2, 'SAV': 2}
 
         def __init__(self):
             self.tos = {}
@@ -512,7 +555,7 @@ def run(ctx):
                 if path == g_ + '.sa':
                     return fs(('&', tag + '[0]'))
                 if path == g_ + '.len':
-                    return fs(2)
+                    return fs(self.LENS[tag])           # every list has its own length: a loop over one list bounded by another shows
             import re
             mm = re.match(r'^(RCP|HRR|HR|TOCC|SAV)\[(\d+)\]\.s$', path)
             if mm:
@@ -549,7 +592,8 @@ def run(ctx):
             rep.count_states(e.states, e.transitions)
             want = [('addr', 'RCP', 0), ('addr', 'RCP', 1)]
             if frh:
-                want += [('addr', 'HRR' if frs else 'HR', 0), ('addr', 'HRR' if frs else 'HR', 1)]
+                tag_ = 'HRR' if frs else 'HR'
+                want += [('addr', tag_, k_) for k_ in range(EN.LENS[tag_])]
             got = getattr(H, 'closed', {}).get((frh, frs))
             if got != {tuple(want)}:
                 bad_en.append(((frh, frs), sorted(got) if got else got, want))
